@@ -595,6 +595,12 @@ func (h *handler1) handleSubscribe(ctx context.Context, snSubscribe *snPkts1.Sub
 	// 	contains wildcard characters
 	// We will use topicID=0 in such cases. SubackMessage
 	var topicID uint16
+	// QoS -1 has no meaning for a subscription and no MQTT counterpart.
+	if snSubscribe.QOS > 2 {
+		snSuback := snPkts1.NewSuback(0, snPkts1.RC_NOT_SUPPORTED, 0)
+		snSuback.CopyMessageID(snSubscribe)
+		return h.snSend(snSuback)
+	}
 	switch snSubscribe.TopicIDType {
 	case snPkts1.TIT_STRING:
 		topic = string(snSubscribe.TopicName)
@@ -635,7 +641,7 @@ func (h *handler1) handleSubscribe(ctx context.Context, snSubscribe *snPkts1.Sub
 
 	mqSubscribe := mqPkts.NewControlPacket(mqPkts.Subscribe).(*mqPkts.SubscribePacket)
 	mqSubscribe.MessageID = snSubscribe.MessageID()
-	mqSubscribe.Dup = snSubscribe.DUP()
+	// NOTE: MQTT SUBSCRIBE has no DUP flag, its fixed header flags are reserved.
 	mqSubscribe.Qoss = []byte{snSubscribe.QOS}
 	mqSubscribe.Topics = []string{topic}
 	return h.mqttSend(mqSubscribe)
